@@ -877,6 +877,27 @@ fn exc_of(rec: Rec, tid: u32, address: u64, ctx: u8) -> ExcM {
     ExcM { tid, code: rec.0, flags: rec.1, address, nparams: rec.2, info, ctx, ctx_ip: APP_BASE + 0x2222, ctx_sp: STACK_BASE + 0x2020 }
 }
 
+/// An amd64 Linux crash whose instruction `mov al,[rax+rcx]` uses two registers that both hold a value one bit
+/// (bit 40) away from mapped memory: the bit-flip analysis reports candidates from the crash address and from
+/// each of the two registers.
+pub fn two_register_bitflip_model() -> Model {
+    let v: u64 = 0x0000_0100_0001_0010;
+    let mut m = Model::new(CpuK::Amd64, md::PlatformId::Linux as u32);
+    add_threads(&mut m, &[1], 0);
+    m.threads[0].ip = 0x4000_2000;
+    m.modules.push(app_module());
+    m.maps = MapsM::Linux(vec![(0x10000, 0x10fff, "rw")]);
+    let mut x = exc_of((11, 1, 0, [0, 0, 0]), 1, v, 1);
+    x.ctx_ip = 0x4000_2000;
+    x.ctx_sp = STACK_BASE;
+    let mut code = vec![0x8a, 0x04, 0x08];
+    code.resize(16, 0x90);
+    m.code = Some((0x4000_2000, code));
+    m.gpr_fill = Some(v);
+    m.exc = Some(x);
+    m
+}
+
 pub const TID_PATTERNS: [&[u32]; 7] = [&[], &[1], &[1, 2], &[2, 2], &[1, 2, 7], &[5, 1, 5], &[1, 2, 2, 7]];
 pub const EXC_TIDS: [Option<u32>; 6] = [None, Some(1), Some(2), Some(5), Some(7), Some(99)];
 /// Breakpad info menu: absent, both, dump thread only, requesting thread only, flags off, dump == requesting
